@@ -5,7 +5,7 @@
    IEEE754.PrimFloat (Prim2B, *_equiv) and BinarySingleNaN (B*_correct). *)
 From Coq Require Import Reals Floats ZArith Bool Lra List.
 From Flocq Require Import Core.Raux Core.Generic_fmt IEEE754.BinarySingleNaN IEEE754.PrimFloat.
-From SpdVerif Require Import Model.NM1d Model.AutoCalc Proofs.C04_poling Proofs.C04_conv Proofs.C04_sim.
+From SpdVerif Require Import Gen.AutoCalc Model.NM1d Model.AutoCalc Proofs.C04_poling Proofs.C04_conv Proofs.C04_sim.
 Local Open Scope R_scope.
 
 Definition fR (x : PrimFloat.float) : R := B2R (Prim2B x).
@@ -114,7 +114,7 @@ Proof.
   intros g G f.
   assert (F1 : fR 1%float = 1) by fR_compute.
   assert (Fc : forall x, f x = CFin 1%float \/ f x = CInf -> True) by auto.
-  assert (Hpt : forall x : PrimFloat.float, (PrimFloat.leb (-16) x && PrimFloat.leb x 16)%bool = true -> pt_ok f G fR fR okf x (fR x)).
+  assert (Hpt : forall x : PrimFloat.float, nm_out_of_bounds_float x (-16)%float 16%float = false -> pt_ok f G fR fR okf x (fR x)).
   { intros x Hx.
     assert (Ef : f x = CFin 1%float) by (unfold f, bounded; rewrite Hx; reflexivity).
     unfold pt_ok. rewrite Ef. split; [reflexivity | split].
@@ -128,7 +128,7 @@ Proof.
   rewrite Ei. unfold step_ok.
   cbn [s0 s1 vp vc float_ops real_ops op_centroid op_reflect op_expand op_contract op_shrink].
   assert (F2 : fR 2%float = 2) by fR_compute.
-  assert (Hp : forall (x : PrimFloat.float) (v : R), fR x = v -> (PrimFloat.leb (-16) x && PrimFloat.leb x 16)%bool = true -> pt_ok f G fR fR okf x v).
+  assert (Hp : forall (x : PrimFloat.float) (v : R), fR x = v -> nm_out_of_bounds_float x (-16)%float 16%float = false -> pt_ok f G fR fR okf x v).
   { intros x v Hv Hx. destruct (Hpt x Hx) as (_ & H2 & H3). unfold pt_ok. rewrite <- Hv. repeat split; assumption. }
   rewrite F1, F2.
   repeat split.
